@@ -57,7 +57,18 @@ pub fn run(tape: &[u8], cx: &Cx) -> Outcome {
     let nsub = 1 + t.choose(3);
     let gen = |t: &mut Tape, max: usize| -> Vec<u32> {
         let n = t.choose(max + 1);
-        (0..n).map(|_| if t.bool_p(200) { prog.atoms.pick_landmark(t) } else { prog.atoms.pick_char(t) }).collect()
+        (0..n)
+            .map(|_| match t.weighted(&[20, 4, 2]) {
+                0 => prog.atoms.pick_landmark(t),
+                1 => prog.atoms.pick_char(t),
+                _ => {
+                    // a character that agrees with a landmark on its low 8 or 16 bits
+                    let l = prog.atoms.pick_landmark(t);
+                    let c = (l & 0xFF) + t.pick(&[0x100u32, 0x1000, 0x10000, 0x20000, 0x2FF00]);
+                    c.min(0x2FFFF)
+                }
+            })
+            .collect()
     };
     let subjects: Vec<Vec<u32>> = (0..nsub).map(|_| gen(&mut t, 8)).collect();
     let repl = gen(&mut t, 3);
